@@ -27,6 +27,7 @@ from MIP.geom.cells import get_cells, get_cell_importances
 from MIP.geom.parsegeom import get_ast
 from MIP.geom.transforms import to_cos
 from MIP.mip.datacard import expand_data_card
+from MIP.mip.utils import to_float
 from ...Progress import Progress
 from ...Volume.CellMCNP import CellMCNP
 from ...Volume.Lattice import parse_ranges, LatticeSpec
@@ -232,7 +233,7 @@ class ParseMCNPCell:
         while kw_list:
             elt = kw_list.pop()
             if elt.startswith('imp'):
-                importance = float(kw_list.pop())
+                importance = to_float(kw_list.pop())
                 # the importance of the cell is the largest one over the
                 # particle types, but a repeated keyword for the same particle
                 # type (LIKE n BUT IMP:N=...) replaces the earlier value
@@ -287,7 +288,7 @@ class ParseMCNPCell:
             fillid_bounds = bounds
         else:
             fillid_u = int(float(first_arg))
-        fill_params = [float(param)
+        fill_params = [to_float(param)
                        for param in self.pop_transform_args(kw_list)]
         # now handle the case where the number of the
         # transformation was given instead of the transformation
@@ -297,12 +298,12 @@ class ParseMCNPCell:
             fill_params = self.transforms[trid][:12]
             # no need to apply to_cos, MIP takes care of it
         elif len(fill_params) == 3:
-            fill_params = [float(param) for param in fill_params[:12]]
+            fill_params = [to_float(param) for param in fill_params[:12]]
             fill_params += [1., 0., 0.,
                             0., 1., 0.,
                             0., 0., 1.]
         elif '*' in elt:
-            fill_params = [float(x) for x in fill_params]
+            fill_params = [to_float(x) for x in fill_params]
             if len(fill_params) == 13 and int(fill_params[-1]) != 1:
                 raise NotImplementedError('affine transformations with m!=1 '
                                           'are not supported yet')
@@ -357,18 +358,18 @@ class ParseMCNPCell:
             trcl_params = self.transforms[trid][:12]
             # no need to apply to_cos, MIP takes care of it
         elif len(trcl_params) == 3:
-            trcl_params = [float(param) for param in trcl_params[:12]]
+            trcl_params = [to_float(param) for param in trcl_params[:12]]
             trcl_params += [1., 0., 0.,
                             0., 1., 0.,
                             0., 0., 1.]
         elif '*' in elt:
-            trcl_params = [float(x) for x in trcl_params]
+            trcl_params = [to_float(x) for x in trcl_params]
             if len(trcl_params) == 13 and int(trcl_params[-1]) != 1:
                 raise NotImplementedError('affine transformations with m!=1 '
                                           'are not supported yet')
             trcl_params[3:] = list(map(to_cos, trcl_params[3:12]))
         else:
-            trcl_params = [float(x) for x in trcl_params]
+            trcl_params = [to_float(x) for x in trcl_params]
         if len(trcl_params) == 13:
             # the 13th entry is the `m' flag of the transformation
             if int(trcl_params[-1]) != 1:
